@@ -282,6 +282,9 @@ def check(tier, seed, t0):
     ex = {"tier": tier}
     parts = [("pre", common.run_cli_cases(None, pre_case, seed, "c18p", n, 2 if tier == "quick" else 38, extra=ex)),
              ("decompress+missing", common.run_cli_cases(None, misc_case, seed, "c18z", 8 if tier == "quick" else 64, 1 if tier == "quick" else 4, extra=ex))]
+    if tier == "thorough":
+        import sanitize
+        parts.append(("asan", sanitize.rg_sanitizer_leg("C18", "asan", pre_case, None, 32, 2, extra={"tier": "quick"})(tier, seed)))
     rep = common.merge_reports(parts)
     cov = {"fault_points_enumerated": sum(v for k, v in rep["counters"].items() if k.startswith("pre.fault_"))}
     return common.finalize("C18", tier, seed, "fault_enumeration", RULE, rep, t0, ASSUME, floor_eval=60, floor_distinct=10,
